@@ -409,6 +409,15 @@ func (s *Server) handlePostHalt(w http.ResponseWriter, r *http.Request) {
 		return
 	}
 
+	// The node may have lost its primary status while the request waited for
+	// the write lock. A lock handed out now would keep this node's database
+	// locked until the TTL ends although it accepts no forwarded transaction.
+	if !s.store.IsPrimary() {
+		db.ReleaseHaltLock(r.Context(), lockID)
+		Error(w, r, fmt.Errorf("cannot acquire halt lock: %w", litefs.ErrReadOnlyReplica), http.StatusServiceUnavailable)
+		return
+	}
+
 	// Return lock ID & position to caller.
 	if err := json.NewEncoder(w).Encode(haltLock); err != nil {
 		Error(w, r, err, http.StatusInternalServerError)
